@@ -24,6 +24,8 @@ func init() {
 }
 
 func runC17(w *World, r *Report) {
+	// the policy-mode retry state lives in utils.MemoryCache: its freshness and store rules (C12.R1, C12.R2)
+	r.Borrow(w, runC12, map[string]string{"R1": "R2", "R2": "R2"})
 	hrRetryCounterStore(w, r, "R1")
 	la := NewLockAn(w)
 	ex := w.Fn(pkgRetry, "retryProcessor.Execute")
